@@ -123,6 +123,29 @@ def run_more(ctx):
                     ctx.fail("remainder", "Lexer::remainder() at position %s is %s, input[position..] is %s" % (pos, body_[:80], hexs(d[int(pos):] if pos.isdigit() else b"")[:80]), [c], [rimpl[rb + j][:600]])
                     break
 
+    # ------------------------------------------------------------ next_* vs read_*, peek_* vs read_* at any point, incl. the
+    # end of the data and a stray / truncated tail (theorems C08_next_token_vs_read_token, C08_next_id_vs_read_id, C08_peek_*)
+    ncases, nmeta = [], []
+    probes = ["t", "n", "i", "ni", "pt", "pi", "rem"]
+    for k, d in enumerate(datas):
+        if rng.random() > ctx.scale(0.5, 1.0):
+            continue
+        toks, end, _ = B.py_lex(d)
+        for j in sorted(set([len(toks), rng.randrange(len(toks) + 1)])):
+            for pr in probes:
+                ncases.append("bl.lops\t%s\t%s" % (hexs(d), ",".join(["t"] * j + [pr])))
+            nmeta.append((k, j))
+    nimpl, _ = ctx.correspond("next_vs_read", ncases, nontrivial=lambda c, i: True)
+    nb = len(nimpl) - len(ncases)
+    for g, (k, j) in enumerate(nmeta):
+        res = {}
+        for q, pr in enumerate(probes):
+            res[pr] = nimpl[nb + g * len(probes) + q].split(" ")[j:]
+        problem = check_next_vs_read(res)
+        if problem:
+            ctx.fail("next-vs-read", "after %d tokens: %s" % (j, problem), [ncases[g * len(probes) + q] for q in range(len(probes))],
+                     [" ".join(res[pr])[:200] for pr in probes])
+
     # ------------------------------------------------------------ construction modes
     ccases, cmeta = [], []
     pool = [d for d in datas if len(d) >= 4] or [b"\x03\x00\x04\x00"]
@@ -136,8 +159,8 @@ def run_more(ctx):
             n_first = rng.randrange(0, 12) if mode == "rec" else 0
             ccases.append("bl.mk\t%s\t%s\t%d\t%s\t%s\t%d" % (mode, hexs(d), cap, B.sched_str(s), hexs(first), n_first))
             cmeta.append((k, cap, need, None))
-    # default buffer against big strings: 30000 fits, 40000 does not
-    for ln in (30000, 40000):
+    # default buffer (32 KiB) against big strings: a token of exactly 32768 bytes fits, one of 32769 does not
+    for ln in (30000, 32764, 32765, 40000):
         d = b"".join(B.enc(t) for t in [("T", 7), ("Q", B.rand_string(rng, ln)), ("BOOL", True)])
         for s in ([], [4096] * 12, [rng.randrange(1, 9000) for _ in range(40)]):
             ccases.append("bl.mk\tnew\t%s\t32768\t%s\t-\t0" % (hexs(d), B.sched_str(s)))
@@ -248,4 +271,35 @@ def check_largest_token(got, ref):
         return "final position %s vs %s" % (gp, rp)
     if ge != re_ and not (ge == "ERR:101" and re_.startswith("ERR:")):
         return "ends with %s where the lexer ends with %s" % (ge, re_)
+    return None
+
+
+def check_next_vs_read(res):
+    """res[probe] = [output of the probe op] after the same prefix of read_token calls"""
+    try:
+        t, n, i, ni, pt, pi, rem = (res[p][0] for p in ("t", "n", "i", "ni", "pt", "pi", "rem"))
+    except IndexError:
+        return None          # an earlier read_token failed: the probe was not reached
+    start = rem.rpartition("@")[2]
+    empty = rem.startswith("REM:-@")
+
+    def pair(read, nxt, what):
+        rv, _, rp = read.rpartition("@")
+        nv, _, np_ = nxt.rpartition("@")
+        if rv.startswith("ERR:"):
+            want = "NONE" if (rv == "ERR:110" and empty) else rv
+            if rp != start or nv != want or np_ != start:
+                return "%s: read = %s, next = %s (data %s)" % (what, read, nxt, "exhausted" if empty else "not exhausted")
+        elif (nv, np_) != (rv, rp):
+            return "%s: read = %s, next = %s" % (what, read, nxt)
+        return None
+    p = pair(t, n, "token") or pair(i, ni, "id")
+    if p:
+        return p
+    tv = t.rpartition("@")[0]
+    iv = i.rpartition("@")[0]
+    if pt != "%s@%s" % ("NONE" if tv.startswith("ERR:") else tv, start):
+        return "peek_token = %s, read_token = %s" % (pt, t)
+    if pi != "%s@%s" % ("NONE" if iv.startswith("ERR:") else iv, start):
+        return "peek_id = %s, read_id = %s" % (pi, i)
     return None
